@@ -3,7 +3,7 @@
 -- value is shorter than 2^62 bytes, which is where Go's wrap-around is the identity).
 -- Heavy case analyses are proved once about a normal form (Proofs/SnapStr.lean, built by lake); here the
 -- freshly translated function is shown to BE that normal form.
--- functions: ds/str String.BitCount, ds/str String.getBit, ds/str String.GetBit, ds/str String.Strlen, ds/str String.GetRange, ds/str String.Append, ds/str String.Set, ds/str String.Get, ds/str String.GetSet
+-- functions: ds/str String.BitCountByBit, ds/str String.BitCount, ds/str String.getBit, ds/str String.GetBit, ds/str String.Strlen, ds/str String.GetRange, ds/str String.Append, ds/str String.Set, ds/str String.Get, ds/str String.GetSet
 -- properties: C01
 -- import: NodisVerif.Model.DsStr
 -- import: NodisVerif.Proofs.SnapStrBits
@@ -46,6 +46,21 @@ theorem str_BitCount_eq_model (v : Bytes) (a b : Int) (hv : v.length < 2 ^ 58) (
   rw [str_BitCount_is_normal_form]; exact StrNF.BitCount_eq_model v a b hv ha hb
 
 example : str.String_.BitCount ⟨[0xA5, 0x0F, 0xFF]⟩ 1 (-1) = .ok 12 := by decide +kernel
+
+theorem str_BitCountByBit_is_normal_form (v : Bytes) (a b : Int) :
+    str.String_.BitCountByBit ⟨v⟩ a b = StrNF.BitCountByBit v a b := by
+  have hg : ∀ o, str.String_.getBit ⟨v⟩ o = StrNF.getBit v o := str_getBit_is_normal_form v
+  first
+  | rfl
+  | (simp only [str.String_.BitCountByBit, StrNF.BitCountByBit, hg])
+  | (simp [str.String_.BitCountByBit, StrNF.BitCountByBit, hg])
+
+/-- `BitCountByBit(start, end)` is the model's `bitCountByBit` for ALL integer arguments (they are clamped to 0 … 8·len) and never panics -/
+theorem str_BitCountByBit_eq_model (v : Bytes) (a b : Int) (hv : v.length < 2 ^ 58) :
+    str.String_.BitCountByBit ⟨v⟩ a b = .ok (DsStr.bitCountByBit (some v) a b) := by
+  rw [str_BitCountByBit_is_normal_form]; exact StrNF.BitCountByBit_eq_model v a b hv
+
+example : str.String_.BitCountByBit ⟨[0xA5, 0x0F]⟩ 2 12 = .ok 3 := by decide +kernel
 
 theorem str_Append_eq_model (v d : Bytes) (h : ¬ (v = [] ∧ d = [])) :
     str.String_.Append ⟨v⟩ d = .ok (⟨v ++ d⟩, (DsStr.append (some v) d).2) := by
